@@ -6,6 +6,12 @@ use embedded_sdmmc::BlockIdx;
 use std::io::{self, BufRead, Write};
 use std::panic::{catch_unwind, AssertUnwindSafe};
 
+macro_rules! guarded {
+    ($e:expr) => {
+        catch_unwind(AssertUnwindSafe(|| $e))
+    };
+}
+
 const PRIME: u64 = 2147483647;
 fn step(h: u64, r: u64) -> u64 {
     (h * 1000003 + r + 1) % PRIME
@@ -127,11 +133,6 @@ fn on<T: ToString>(r: std::thread::Result<T>) -> String {
         Err(_) => "p".to_string(),
     }
 }
-macro_rules! guarded {
-    ($e:expr) => {
-        catch_unwind(AssertUnwindSafe(|| $e))
-    };
-}
 fn fn_err(e: &FilenameError) -> (&'static str, u64) {
     match e {
         FilenameError::InvalidCharacter => ("InvalidCharacter", 0),
@@ -154,10 +155,17 @@ fn sfn_bytes(n: &ShortFileName) -> [u8; 11] {
     o
 }
 enum NRes {
+    Panic,
     Err(FilenameError),
     Ok([u8; 11], Vec<u32>, Result<[u8; 11], FilenameError>, u8),
 }
 fn name_run(cps: &[u64]) -> NRes {
+    match guarded!(name_run_inner(cps)) {
+        Ok(r) => r,
+        Err(_) => NRes::Panic,
+    }
+}
+fn name_run_inner(cps: &[u64]) -> NRes {
     let s: String = cps.iter().map(|&c| char::from_u32(c as u32).expect("not a scalar value")).collect();
     match ShortFileName::create_from_str(&s) {
         Err(e) => NRes::Err(e),
@@ -170,6 +178,7 @@ fn name_run(cps: &[u64]) -> NRes {
 }
 fn nres_str(r: &NRes) -> String {
     match r {
+        NRes::Panic => "panic".to_string(),
         NRes::Err(e) => format!("Err {}", fn_err(e).0),
         NRes::Ok(b, d, r, c) => format!(
             "Ok {} D {} P {} C {}",
@@ -185,6 +194,7 @@ fn nres_str(r: &NRes) -> String {
 }
 fn nres_digest(mut h: u64, r: &NRes) -> u64 {
     match r {
+        NRes::Panic => step(h, 3),
         NRes::Err(e) => step(step(h, 2), fn_err(e).1),
         NRes::Ok(b, d, r, c) => {
             h = step(h, 1);
@@ -237,7 +247,17 @@ fn main() {
                     let mut h = 0u64;
                     for j in 0..v[4] {
                         let time = ((v[3] + j * v[5]) & 0xFFFF) as u16;
-                        let ts = Timestamp::from_fat(date, time);
+                        let ts = match guarded!(Timestamp::from_fat(date, time)) {
+                            Ok(t) => t,
+                            Err(_) => {
+                                if list {
+                                    writeln!(out, "R {} {} panic", date, time).unwrap();
+                                } else {
+                                    h = step(h, 257);
+                                }
+                                continue;
+                            }
+                        };
                         let e = enc(ts);
                         if list {
                             writeln!(out, "R {} {} {} {}", date, time, ts_str(&ts), match e {
@@ -267,7 +287,12 @@ fn main() {
             ["TE", ts] => writeln!(out, "R {}", te(ts_of(&csv(ts)))).unwrap(),
             ["TC", v] => {
                 let v = csv(v);
-                match Timestamp::from_calendar(v[0] as u16, v[1] as u8, v[2] as u8, v[3] as u8, v[4] as u8, v[5] as u8) {
+                let r = guarded!(Timestamp::from_calendar(v[0] as u16, v[1] as u8, v[2] as u8, v[3] as u8, v[4] as u8, v[5] as u8));
+                if r.is_err() {
+                    writeln!(out, "R panic").unwrap();
+                    continue;
+                }
+                match r.unwrap() {
                     Err(e) => {
                         let k = match e {
                             "Bad year" => "BadYear",
